@@ -21,7 +21,8 @@ from geneticengine.representations.grammatical_evolution.dynamic_structured_ge i
 from geneticengine.representations.stackgggp import StackBasedGGGPRepresentation
 
 # with and without refined fields (metahandlers draw from the synthesis context's random source)
-SPEC_IDS = ["arith", "sizedlist", "nested", "bases", "mutual", "refined", "plainlist", "union", "nestedgen"]
+SPEC_IDS = ["arith", "sizedlist", "nested", "bases", "mutual", "refined", "plainlist", "union", "nestedgen", "concstart",
+            "depnested"]
 
 
 def genes_of(gt):
